@@ -158,7 +158,12 @@ def check_pe(spec, align_s):
     try:
         pe = vm_load_pe(vm, data, align_s=align_s, name="gen")
     except Exception as e:
-        st["outcome"] = "refused-load:%s" % type(e).__name__
+        if all(s["vsize"] > 0 for s in secs):
+            # a well-formed image written by the loader's own builder must be loadable
+            bad("load-raises-%s" % type(e).__name__, "vm_load_pe raised %r on an image whose sections all have a non-zero virtual size" % (e,))
+            st["outcome"] = "violation"
+        else:
+            st["outcome"] = "refused-load:%s" % type(e).__name__
         return vs, st
     pages = pages_of(vm)
     st["path"] = "per-section-pages" if len(pages) > 1 else "one-big-page"
@@ -277,7 +282,11 @@ def check_elf(name, load_base):
     try:
         elf = vm_load_elf(vm, data, name=name, base_addr=load_base)
     except Exception as e:
-        st["outcome"] = "refused-load:%s" % type(e).__name__
+        if loads:
+            bad("load-raises-%s" % type(e).__name__, "vm_load_elf raised %r on a toolchain-produced file with %d PT_LOAD segments" % (e, len(loads)))
+            st["outcome"] = "violation"
+        else:
+            st["outcome"] = "refused-load:%s" % type(e).__name__
         return vs, st
     pages = pages_of(vm)
     for i, p in enumerate(loads):
